@@ -3,6 +3,7 @@
 package main
 
 import (
+	"bufio"
 	"bytes"
 	"compress/gzip"
 	"fmt"
@@ -165,6 +166,15 @@ func c23Handler(mode, root, croot, kind string, n int, compress bool) fasthttp.R
 	return h
 }
 
+func hasCTL23(b []byte) bool {
+	for _, c := range b {
+		if c < 0x20 || c == 0x7f {
+			return true
+		}
+	}
+	return false
+}
+
 func c23HasDotDot(p []byte) bool {
 	for _, s := range bytes.Split(p, []byte("/")) {
 		if string(s) == ".." {
@@ -174,9 +184,29 @@ func c23HasDotDot(p []byte) bool {
 	return false
 }
 
-func c23NewCtx(uri, host []byte, direct bool, compress bool) *fasthttp.RequestCtx {
-	var ctx fasthttp.RequestCtx
+// c23NewCtx builds the request context the handler sees.  hm = "h": SetRequestURI + Host header; "d": additionally the
+// URI host set directly (any bytes); "w": the request is PARSED from raw bytes ("GET <target> HTTP/1.1\r\nHost: …") by
+// the real request-line / header parser (falls back to "h" when the parser rejects it; wire reports which happened).
+func c23NewCtx(uri, host []byte, hm string, compress bool) (ctx *fasthttp.RequestCtx, wire bool) {
+	ctx = &fasthttp.RequestCtx{}
 	var req fasthttp.Request
+	if hm == "w" {
+		var raw bytes.Buffer
+		raw.WriteString("GET ")
+		raw.Write(uri)
+		raw.WriteString(" HTTP/1.1\r\nHost: ")
+		raw.Write(host)
+		raw.WriteString("\r\n")
+		if compress {
+			raw.WriteString("Accept-Encoding: gzip\r\n")
+		}
+		raw.WriteString("\r\n")
+		if err := req.Read(bufio.NewReader(bytes.NewReader(raw.Bytes()))); err == nil {
+			ctx.Init(&req, nil, nopLogger{})
+			return ctx, true
+		}
+		req.Reset()
+	}
 	req.Header.SetMethod("GET")
 	req.SetRequestURIBytes(uri)
 	req.Header.SetHostBytes(host)
@@ -184,10 +214,10 @@ func c23NewCtx(uri, host []byte, direct bool, compress bool) *fasthttp.RequestCt
 		req.Header.Set("Accept-Encoding", "gzip")
 	}
 	ctx.Init(&req, nil, nopLogger{})
-	if direct {
+	if hm == "d" {
 		ctx.URI().SetHostBytes(host)
 	}
-	return &ctx
+	return ctx, false
 }
 
 func c23Flag(b bool) []byte {
@@ -252,7 +282,8 @@ func init() {
 		Rule: "unit: stripLeadingSlashes / hasDotDotPathSegment (exhaustive over {. / a \\} up to 7 bytes + random) / pathToFilePath (osFS and fs.FS roots \"\", \".\", dir) / filePathToCompressed vs the model; " +
 			"e2e: request targets from a grammar (plain, '.', '..' at every position, %2e/%2E/%2f/%5c/%00/raw NUL/backslash/double-encoded segments, repeated slashes, 300-byte segments) x hosts (plain, '..', with '/', empty, encoded, long) " +
 			"x rewriter {none, vhost, slashes, prefix} x strip count 0..4 x compress on/off, against (fs) an instrumented fstest.MapFS with roots \"\", \".\", sub, sub/deep logging every Open/Stat/ReadDir and (os) a temp tree with sentinel files next to the root (incl. <root>.fasthttp.gz, <root>secret.txt); " +
-			"enum: every target over 9 symbols up to 4 (quick) / 5 (thorough) symbols for four configurations; non-trivial = target or host contains a dot-segment candidate, an encoded/raw separator or NUL, or a rewriter is set; distinct = distinct (configuration, host, target)",
+			"every target is followed by one of: nothing, ?query, #fragment, both, empty ones, '?' inside the fragment, %23/%3F, and '#'/'?' are also planted inside the path in front of dot segments, so every branch of URI.parse feeds the FS; half of the requests are parsed from raw bytes by the real request-line/header parser (Request.Read), the rest use SetRequestURI; " +
+			"enum: every target over 11 symbols (incl. '#', '?') up to 4 (quick) / 5 (thorough) symbols for four configurations, through the request parser; non-trivial = target or host contains a dot-segment candidate, an encoded/raw separator or NUL, or a rewriter is set; distinct = distinct (configuration, host, target)",
 		Parallel: false,
 		Exhaustive: func(string) bool { return false },
 		Assumptions: []string{
@@ -376,7 +407,7 @@ func c23E2E(a [][]byte) *Case {
 	mode, rootArg, crootArg, kind := string(a[0]), string(a[1]), string(a[2]), string(a[3])
 	n, _ := strconv.Atoi(string(a[4]))
 	compress := string(a[5]) == "1"
-	direct := string(a[6]) == "d"
+	hm := string(a[6])
 	host, uri := a[7], a[8]
 	osfs := mode == "os"
 	root, croot := rootArg, rootArg
@@ -395,9 +426,22 @@ func c23E2E(a [][]byte) *Case {
 	h := c23Handler(mode, root, cr, kind, n, compress)
 
 	// what the handler will see
-	ctx := c23NewCtx(uri, host, direct, compress)
+	ctx, wire := c23NewCtx(uri, host, hm, compress)
+	// the request target as the request line carried it, before URI.parse
+	target := append([]byte(nil), ctx.Request.Header.RequestURI()...)
+	hostHdr := append([]byte(nil), ctx.Request.Header.Host()...)
 	orig := append([]byte(nil), ctx.URI().PathOriginal()...)
 	hostSeen := append([]byte(nil), ctx.Host()...)
+	// origin-form target, URI.parse takes the plain branch (no scheme splitting, no CTL rejection): pathOriginal must be
+	// the target up to the first '?' or '#', and ctx.Path() its normalisation — on EVERY branch of URI.parse
+	originForm := len(target) > 0 && target[0] == '/' && !bytes.Contains(target, B("://")) && len(hostHdr) > 0 && !hasCTL23(target)
+	if originForm {
+		// a host the URI parser rejects leaves the URI empty (path "/"): not a question of splitting the target
+		var probe fasthttp.URI
+		if probe.Parse(hostHdr, target) != nil {
+			originForm = false
+		}
+	}
 	// the rewritten path, obtained through the public rewriter on a twin context
 	var rewritten []byte
 	rwPanic := false
@@ -407,7 +451,7 @@ func c23E2E(a [][]byte) *Case {
 				rwPanic = true
 			}
 		}()
-		twin := c23NewCtx(uri, host, direct, compress)
+		twin, _ := c23NewCtx(uri, host, hm, compress)
 		if rw := c23Rewriter(kind, n); rw != nil {
 			rewritten = append([]byte(nil), rw(twin)...)
 		} else {
@@ -444,7 +488,30 @@ func c23E2E(a [][]byte) *Case {
 		tags = append(tags, "host-with-slash-seen")
 	}
 	desc := fmt.Sprintf("%s root=%q croot=%q rewriter=%s(%d) compress=%v host=%q target=%q", mode, rootArg, crootArg, kind, n, compress, host, uri)
-	return &Case{Lines: []string{line}, Impl: fmt.Sprintf("status=%d calls=%v", status, callStr), Nontrivial: nt, Tags: tags,
+	if wire {
+		tags = append(tags, "via-request-parser")
+	}
+	switch qi, fi := bytes.IndexByte(target, '?'), bytes.IndexByte(target, '#'); {
+	case qi < 0 && fi < 0:
+		tags = append(tags, "target-plain")
+	case fi < 0:
+		tags = append(tags, "target-query")
+	case qi < 0 || qi > fi:
+		tags = append(tags, "target-fragment-only")
+	default:
+		tags = append(tags, "target-query-fragment")
+	}
+	lines := []string{line}
+	if originForm {
+		lines = append(lines, Line("fstarget", target))
+	}
+	nt = nt || bytes.IndexByte(uri, '#') >= 0 || bytes.IndexByte(uri, '?') >= 0 || bytes.Contains(uri, B("%23"))
+	// independent oracle for the path the FS must work on (RFC 3986: path = target up to the first '?' or '#')
+	wantOrig := target
+	if i := bytes.IndexAny(target, "?#"); i >= 0 {
+		wantOrig = target[:i]
+	}
+	return &Case{Lines: lines, Impl: fmt.Sprintf("status=%d calls=%v", status, callStr), Nontrivial: nt, Tags: tags,
 		Judge: func(r []string) Verdict {
 			// ---- property monitor (independent of the model)
 			if rwPanic {
@@ -467,6 +534,14 @@ func c23E2E(a [][]byte) *Case {
 					return Verdict{VSpec, key, fmt.Sprintf("%s: %s", desc, outside)}
 				}
 			}
+			if originForm {
+				if !bytes.Equal(orig, wantOrig) {
+					return Verdict{VSpec, "uri-path-split", fmt.Sprintf("%s: request target %q: URI.PathOriginal() = %q, the path component is %q", desc, target, orig, wantOrig)}
+				}
+				if kind == "none" && c23HasDotDot(rewritten) {
+					return Verdict{VSpec, "path-not-normalised", fmt.Sprintf("%s: request target %q: ctx.Path() = %q handed to the FS (no rewriter, so no '..' test) still has a '..' segment", desc, target, rewritten)}
+				}
+			}
 			if bytes.IndexByte(rewritten, 0) >= 0 && (status != 400 || len(calls) > 0) {
 				return Verdict{VSpec, "nul-not-rejected", fmt.Sprintf("%s: rewritten path %q has a NUL byte but the answer is %d, fs calls %v", desc, rewritten, status, callStr)}
 			}
@@ -480,6 +555,10 @@ func c23E2E(a [][]byte) *Case {
 			}
 			bad := func(key, msg string) Verdict {
 				return Verdict{VCorr, key, fmt.Sprintf("%s: %s (impl status=%d calls=%v; model %s)", desc, msg, status, callStr, r[0])}
+			}
+			if originForm && len(r) > 1 && r[1] != H(orig) {
+				mo, _ := UnH(r[1])
+				return bad("e2e-path-original", fmt.Sprintf("request target %q: PathOriginal impl %q model %q", target, orig, mo))
 			}
 			switch m.class {
 			case "panic":
@@ -600,10 +679,19 @@ func c23Gen(r *Rand, tier string, emit func(string, ...[]byte)) {
 		if r.Chance(25) {
 			b = append(b, '/')
 		}
-		if r.Chance(5) {
-			b = append(b, "?q=../..&x=%00"...)
-		}
 		return b
+	}
+	// what follows the path in the request target: every branch of URI.parse (neither, query, fragment only, both,
+	// empty fragment / query, '?' inside the fragment)
+	tails := []string{"", "", "", "", "?q=1", "?q=../..&x=%00", "#frag", "#", "?", "?q=1#frag", "?#", "#frag?q=1", "#/../..", "?/../..", "#%2e%2e", "%23frag", "%3Fq"}
+	withTail := func(b []byte) []byte {
+		b = append([]byte(nil), b...)
+		if r.Chance(8) && len(b) > 1 {
+			// '#' or '?' (or their encodings) inside the path, in front of later dot segments
+			i := 1 + r.Intn(len(b)-1)
+			b = append(b[:i:i], append([]byte(r.Pick([]string{"#", "?", "%23", "%3f"})), b[i:]...)...)
+		}
+		return append(b, r.Pick(tails)...)
 	}
 	// '..' (and its encodings) at every position of a real path; shapes for the prefix stripper
 	var fixed [][]byte
@@ -634,9 +722,12 @@ func c23Gen(r *Rand, tier string, emit func(string, ...[]byte)) {
 		} else if r.Chance(40) {
 			croot = "Z"
 		}
-		hm := "h"
-		if r.Chance(30) {
+		hm := "w"
+		switch x := r.Intn(100); {
+		case x < 25:
 			hm = "d"
+		case x < 50:
+			hm = "h"
 		}
 		emit("e2e", B(mode), B(root), B(croot), B(kind), N(n), c23Flag(r.Chance(40)), B(hm), B(r.Pick(hosts)), uri)
 	}
@@ -647,18 +738,18 @@ func c23Gen(r *Rand, tier string, emit func(string, ...[]byte)) {
 		}
 		for _, u := range fixed {
 			for i := 0; i < reps; i++ {
-				emitE2E(mode, u)
+				emitE2E(mode, withTail(u))
 			}
 		}
 	}
 	for i := 0; i < nFS; i++ {
-		emitE2E("fs", genURI())
+		emitE2E("fs", withTail(genURI()))
 	}
 	for i := 0; i < nOS; i++ {
-		emitE2E("os", genURI())
+		emitE2E("os", withTail(genURI()))
 	}
-	// ---- enum: all targets over 9 symbols up to enumLen symbols, four configurations
-	syms := []string{"/", "..", ".", "a", "%2e", "%2f", "\\", "%00", "sub"}
+	// ---- enum: all targets over 11 symbols (incl. '#' and '?') up to enumLen symbols, four configurations, through the request parser
+	syms := []string{"/", "..", ".", "a", "%2e", "%2f", "\\", "%00", "sub", "#", "?"}
 	type cfg struct{ mode, root, croot, kind, n, z, host string }
 	cfgs := []cfg{{"fs", "sub", "", "none", "0", "1", "host.com"}, {"fs", "sub", "", "pfx", "2", "0", "host.com"},
 		{"fs", "", "", "vhost", "1", "1", ".."}, {"os", "R", "", "slashes", "1", "0", "host.com"}}
@@ -668,7 +759,7 @@ func c23Gen(r *Rand, tier string, emit func(string, ...[]byte)) {
 			if c.mode == "os" && d > enumLen-1 {
 				continue
 			}
-			emit("e2e", B(c.mode), B(c.root), B(c.croot), B(c.kind), B(c.n), B(c.z), B("h"), B(c.host), append([]byte("/"), p...))
+			emit("e2e", B(c.mode), B(c.root), B(c.croot), B(c.kind), B(c.n), B(c.z), B("w"), B(c.host), append([]byte("/"), p...))
 		}
 		if d == enumLen {
 			return
